@@ -10,6 +10,7 @@ use std::panic::{catch_unwind, AssertUnwindSafe};
 mod astops;
 mod canon;
 mod entry;
+mod unp;
 mod fmtops;
 mod hooks;
 mod pos;
@@ -39,6 +40,7 @@ fn dispatch(req: &Value) -> Value {
         "lex_raw" => syn::lex_raw(req),
         "parse_ok" => syn::parse_ok(req),
         "entrypoints" => entry::entrypoints(req),
+        "unparse" => unp::unparse(req),
         "locate_tree" => syn::locate_tree(req),
         "locate_calls" => syn::locate_calls(req),
         _ => json!({"tool_error": format!("unknown op {op}")}),
